@@ -221,7 +221,11 @@ impl<L: Language> NthChild<L> {
       parent
         .children()
         .filter(|n| n.is_named())
-        .filter_map(|child| rule.match_node_with_env(child, env))
+        .filter_map(|child| {
+          // siblings are matched independently: their bindings must not constrain each other
+          let mut sub_env = Cow::Borrowed(env.as_ref());
+          rule.match_node_with_env(child, &mut sub_env)
+        })
         .collect()
     } else {
       parent.children().filter(|n| n.is_named()).collect()
@@ -267,7 +271,14 @@ impl<L: Language> Matcher<L> for NthChild<L> {
     env: &mut Cow<MetaVarEnv<'tree, D>>,
   ) -> Option<Node<'tree, D>> {
     let index = self.find_index(&node, env)?;
-    self.position.is_matched(index).then_some(node)
+    if !self.position.is_matched(index) {
+      return None;
+    }
+    // only the matched node itself contributes the variables of ofRule
+    if let Some(rule) = &self.of_rule {
+      rule.match_node_with_env(node.clone(), env)?;
+    }
+    Some(node)
   }
   fn potential_kinds(&self) -> Option<BitSet> {
     let rule = self.of_rule.as_ref()?;
